@@ -34,9 +34,12 @@ REPCLASS = {"J1": "z1", "Jz2": "z", "Jzm1": "z", "Jz3": "z", "Jneg": "negz1", "J
             "Jacc": "acc", "L": "legacy", "INF": "inf"}
 
 
-def _mk(cf, c, P, rep, helper):
+def _mk(cf, c, P, rep, helper, twin=False):
     if P is None:
         return INFINITY
+    if twin:
+        # the same curve held in a second, equal CurveFp object (unpickled point, user-built curve)
+        cf = CurveFp(c[0], c[1], c[2])
     return EU.build(cf, c, P, rep, helper=helper)
 
 
@@ -73,7 +76,7 @@ def check_pair(ctx, c, P, Q, rp, rq, hp=None, hq=None, enum=False):
         return "%s/%s/%s/%s" % (op, rel, rc, reason.replace(" ", "-"))
 
     # --- addition (fresh operands: operations may rescale in place)
-    A, B = _mk(cf, c, P, rp, hp), _mk(cf, c, Q, rq, hq)
+    A, B = _mk(cf, c, P, rp, hp), _mk(cf, c, Q, rq, hq, twin=True)
     if A is None or B is None:
         ctx.event("rep-unavailable")
         return
@@ -97,7 +100,7 @@ def check_pair(ctx, c, P, Q, rp, rq, hp=None, hq=None, enum=False):
                 ctx.fail(sig("add-mutated-operand", nm), dict(case, op="add"), w2)
 
     # --- equality, both spellings
-    A, B = _mk(cf, c, P, rp, hp), _mk(cf, c, Q, rq, hq)
+    A, B = _mk(cf, c, P, rp, hp), _mk(cf, c, Q, rq, hq, twin=(rp != rq))
     ctx.ev()
     try:
         eq = A == B
